@@ -182,6 +182,29 @@ func (c ColAuto) Rows() int {
 	return c.Data.Rows()
 }
 
+// DecodeState implements StateDecoder, forwarding state to inferred column.
+func (c ColAuto) DecodeState(r *Reader) error {
+	if s, ok := c.Data.(StateDecoder); ok {
+		return s.DecodeState(r)
+	}
+	return nil
+}
+
+// EncodeState implements StateEncoder, forwarding state to inferred column.
+func (c ColAuto) EncodeState(b *Buffer) {
+	if s, ok := c.Data.(StateEncoder); ok {
+		s.EncodeState(b)
+	}
+}
+
+// Prepare implements Preparable, forwarding preparation to inferred column.
+func (c ColAuto) Prepare() error {
+	if v, ok := c.Data.(Preparable); ok {
+		return v.Prepare()
+	}
+	return nil
+}
+
 func (c ColAuto) DecodeColumn(r *Reader, rows int) error {
 	return c.Data.DecodeColumn(r, rows)
 }
